@@ -424,6 +424,17 @@ def mk_take(maxlen, maxc, two_d):
             e.check(tuple(sum(c) for c in r.chunks) == want.shape, "lazy chunks do not add up to the shape")
             r2 = d[(slice(None), list(idx)) if two_d else (list(idx),)]
             e.check(bool((r2.compute(scheduler="sync") == want).all()), "list indexer differs from array indexer")
+            if two_d and all(0 <= v < len(idx) for v in idx) and len(idx) <= x.shape[1]:
+                # a history of indexing steps in ONE graph: fancy-index axis 0, drop the other axis with an integer, fancy-index axis 0
+                # again with the same indexer (internal helper keys of the two fancy steps must not collide)
+                xt, dt = x.T, d.T
+                w3 = xt[sel][:, 0][sel]
+                g3 = dt[sel][:, 0][sel]
+                e.check(g3.shape == w3.shape, f"x[idx][:, 0][idx]: lazy shape {g3.shape} != {w3.shape}")
+                e.check(bool((g3.compute(scheduler="sync") == w3).all()), f"x[idx][:, 0][idx] with idx={idx} differs from NumPy")
+                w4 = xt[sel].sum(axis=1)[sel]
+                g4 = dt[sel].sum(axis=1)[sel]
+                e.check(bool((g4.compute(scheduler="sync") == w4).all()), f"x[idx].sum(axis=1)[idx] with idx={idx} differs from NumPy")
         return got.tolist()
 
     return Obligation(f"take[{'2d' if two_d else '1d'},len<={maxlen},chunk<={maxc}]", setup, run)
